@@ -971,3 +971,258 @@ func ruleJSONATTR(c *Ctx, r *Report) {
 	}
 	r.floor(rule, "numeric attribute members written by the encoder", n, 2)
 }
+
+// JSON-LIST-LEAF (C12, C13): the members of a decoded value list are leaves. Validate does not descend into a
+// []*Expression operand (the parser only ever puts terms there), so a list member decoded as a full nested
+// expression is a subtree no validation looks at and the renderers index into unchecked.
+func ruleJSONLISTLEAF(c *Ctx, r *Report) {
+	const rule = "JSON-LIST-LEAF"
+	r.doc(rule, "in the JSON decoder and the byte-reading helpers it reaches, every element stored into a []*Expression operand is nil, the result of a module function that cannot re-enter the expression decoder (the leaf decoder), or an element read from another such list; json.Unmarshal is never pointed at a collection of expressions. A value list therefore decodes to leaves only — the one shape Validate, which does not descend into list operands, and the renderers' list cases rely on")
+	dec := c.method(pkgExpr, "Expression", "UnmarshalJSON")
+	if dec == nil {
+		r.bad(rule, "anchor", "-", "UnmarshalJSON not found")
+		return
+	}
+	reach := c.reachFrom([]*ssa.Function{dec})
+	var mod []*ssa.Function
+	for f := range reach {
+		if fnPkgPath(f) == pkgExpr && f.Blocks != nil {
+			mod = append(mod, f)
+		}
+	}
+	sort.Slice(mod, func(i, j int) bool { return mod[i].Pos() < mod[j].Pos() })
+	holdsExpr := func(t types.Type) bool {
+		if p, ok := t.Underlying().(*types.Pointer); ok {
+			t = p.Elem()
+		}
+		if isExprPtr(t) {
+			return true
+		}
+		if n, ok := t.(*types.Named); ok && n.Obj().Name() == "Expression" && n.Obj().Pkg() != nil && n.Obj().Pkg().Path() == pkgExpr {
+			return true
+		}
+		return false
+	}
+	collOfExpr := func(t types.Type) bool {
+		if p, ok := t.Underlying().(*types.Pointer); ok {
+			t = p.Elem()
+		}
+		switch u := t.Underlying().(type) {
+		case *types.Slice:
+			return holdsExpr(u.Elem())
+		case *types.Array:
+			return holdsExpr(u.Elem())
+		case *types.Map:
+			return holdsExpr(u.Elem())
+		}
+		return false
+	}
+	// the target of a json decoding call, if the instruction is one
+	decodeTarget := func(in ssa.Instruction) (types.Type, bool) {
+		call, ok := in.(ssa.CallInstruction)
+		if !ok {
+			return nil, false
+		}
+		name := calleeFullName(call)
+		args := call.Common().Args
+		var tv ssa.Value
+		switch name {
+		case "encoding/json.Unmarshal":
+			if len(args) == 2 {
+				tv = args[1]
+			}
+		case "(*encoding/json.Decoder).Decode":
+			if len(args) == 2 {
+				tv = args[1]
+			}
+		}
+		if tv == nil {
+			return nil, false
+		}
+		if mi, ok := tv.(*ssa.MakeInterface); ok {
+			return mi.X.Type(), true
+		}
+		return tv.Type(), true
+	}
+	reenters := map[*ssa.Function]bool{}
+	for _, f := range mod {
+		for _, b := range f.Blocks {
+			for _, in := range b.Instrs {
+				if t, ok := decodeTarget(in); ok && (holdsExpr(t) || collOfExpr(t)) {
+					reenters[f] = true
+				}
+				if call, ok := in.(ssa.CallInstruction); ok && call.Common().StaticCallee() == dec {
+					reenters[f] = true
+				}
+			}
+		}
+	}
+	for changed := true; changed; {
+		changed = false
+		for _, f := range mod {
+			if reenters[f] {
+				continue
+			}
+			for _, b := range f.Blocks {
+				for _, in := range b.Instrs {
+					if call, ok := in.(ssa.CallInstruction); ok {
+						if g := call.Common().StaticCallee(); g != nil && reenters[g] {
+							reenters[f] = true
+							changed = true
+						}
+					}
+				}
+			}
+		}
+	}
+	readsBytes := func(f *ssa.Function) bool {
+		if f == dec {
+			return true
+		}
+		var has func(t types.Type, d int) bool
+		has = func(t types.Type, d int) bool {
+			if d > 3 {
+				return false
+			}
+			if n, ok := t.(*types.Named); ok && n.Obj().Name() == "RawMessage" {
+				return true
+			}
+			switch u := t.Underlying().(type) {
+			case *types.Slice:
+				if b, ok := u.Elem().Underlying().(*types.Basic); ok && b.Kind() == types.Byte {
+					return true
+				}
+				return has(u.Elem(), d+1)
+			case *types.Pointer:
+				return has(u.Elem(), d+1)
+			}
+			return false
+		}
+		for _, p := range f.Params { // the receiver included
+			if has(p.Type(), 0) {
+				return true
+			}
+		}
+		for _, fv := range f.FreeVars {
+			if has(fv.Type(), 0) {
+				return true
+			}
+		}
+		return false
+	}
+	// filled: the node v points to is handed to a json decoding call or to the decoder method itself
+	filled := func(v ssa.Value) bool {
+		refs := v.Referrers()
+		if refs == nil {
+			return false
+		}
+		for _, u := range *refs {
+			if ci, ok := u.(ssa.CallInstruction); ok {
+				if _, isDec := decodeTarget(ci); isDec {
+					return true
+				}
+				if g := ci.Common().StaticCallee(); g != nil && reenters[g] {
+					return true
+				}
+			}
+			if mi, ok := u.(*ssa.MakeInterface); ok {
+				for _, u2 := range *mi.Referrers() {
+					if _, isDec := decodeTarget(u2); isDec {
+						return true
+					}
+				}
+			}
+		}
+		return false
+	}
+	var origin func(v ssa.Value, seen map[ssa.Value]bool) string
+	origin = func(v ssa.Value, seen map[ssa.Value]bool) string {
+		if seen[v] {
+			return ""
+		}
+		seen[v] = true
+		if filled(v) {
+			return "a node filled by a recursive json decoding call"
+		}
+		switch x := v.(type) {
+		case *ssa.Const:
+			if x.IsNil() {
+				return ""
+			}
+		case *ssa.Extract:
+			return origin(x.Tuple, seen)
+		case *ssa.Call:
+			g := x.Call.StaticCallee()
+			if g != nil && fnPkgPath(g) == pkgExpr && !reenters[g] {
+				return ""
+			}
+			if g != nil && reenters[g] {
+				return "the result of " + g.Name() + ", which re-enters the expression decoder"
+			}
+			return "the result of a call that is not a module leaf decoder"
+		case *ssa.Phi:
+			for _, e := range x.Edges {
+				if s := origin(e, seen); s != "" {
+					return s
+				}
+			}
+			return ""
+		case *ssa.UnOp:
+			if x.Op == token.MUL {
+				if ia, ok := x.X.(*ssa.IndexAddr); ok && collOfExpr(ia.X.Type()) {
+					return ""
+				}
+			}
+		case *ssa.Index:
+			if collOfExpr(x.X.Type()) {
+				return ""
+			}
+		case *ssa.Alloc:
+			for _, u := range *x.Referrers() {
+				if ci, ok := u.(ssa.CallInstruction); ok {
+					if _, isDec := decodeTarget(ci); isDec {
+						return "a node filled by a recursive json decoding call"
+					}
+				}
+				if mi, ok := u.(*ssa.MakeInterface); ok {
+					for _, u2 := range *mi.Referrers() {
+						if _, isDec := decodeTarget(u2); isDec {
+							return "a node filled by a recursive json decoding call"
+						}
+					}
+				}
+			}
+		}
+		return "a value that is not the result of the leaf decoder"
+	}
+	n := 0
+	for _, f := range mod {
+		if !readsBytes(f) {
+			continue
+		}
+		for _, b := range f.Blocks {
+			for _, in := range b.Instrs {
+				if t, ok := decodeTarget(in); ok && collOfExpr(t) {
+					r.bad(rule, f.Name()+"|decode-into-list", c.instrPos(in), f.Name()+" points a json decoding call at a collection of expressions: its members are decoded as full nested expressions, which Validate never looks into")
+				}
+				st, ok := in.(*ssa.Store)
+				if !ok || !isExprPtr(st.Val.Type()) {
+					continue
+				}
+				ia, ok := st.Addr.(*ssa.IndexAddr)
+				if !ok {
+					continue
+				}
+				_ = ia
+				n++
+				key := fmt.Sprintf("%s|element#%d", f.Name(), n)
+				if why := origin(st.Val, map[ssa.Value]bool{}); why != "" {
+					r.bad(rule, f.Name()+"|element", c.instrPos(in), f.Name()+" puts into a decoded value list "+why+": a list member that is a whole expression is a subtree Validate does not descend into and the list renderers do not expect")
+				} else {
+					r.ok(rule, key, c.instrPos(in), "leaf decoder result")
+				}
+			}
+		}
+	}
+	r.floor(rule, "list element stores in the decoder", n, 1)
+}
